@@ -264,6 +264,9 @@ func (s *Sim) reexecOne(ctx context.Context, name string, e *Entry, o *OpRecord,
 	defer func() {
 		if r := recover(); r != nil {
 			s.count("reexec.panic")
+			if s.sched.keepDebug {
+				s.sched.lines = append(s.sched.lines, fmt.Sprintf("  reexec %s: panic: %v", o.Name, r))
+			}
 		}
 	}()
 	if o.Op.Kind == "script" && o.Op.Tpl == tplBalance && o.Op.Src != o.Op.Src2 {
@@ -315,8 +318,11 @@ func (s *Sim) reexecOne(ctx context.Context, name string, e *Entry, o *OpRecord,
 		return
 	}
 	m := vm.NewMachine(*prog)
-	if err := m.SetVarsFromJSON(o.Script.Vars); err != nil {
+	if err := m.SetVarsFromJSON(cloneScript(o.Script).Vars); err != nil {
 		s.count("reexec.vars-error")
+		if s.sched.keepDebug {
+			s.sched.lines = append(s.sched.lines, fmt.Sprintf("  reexec %s: vars error: %v (vars=%v)", o.Name, err, o.Script.Vars))
+		}
 		return
 	}
 	if _, _, err := m.ResolveResources(ctx, store); err != nil {
@@ -330,7 +336,7 @@ func (s *Sim) reexecOne(ctx context.Context, name string, e *Entry, o *OpRecord,
 	res, err := vm.Run(m, *o.Script)
 	s.count("reexec.done")
 	feat := []string{"kind=" + o.Op.Kind}
-	if o.Op.Kind == "script" {
+	if o.Op.Kind == "script" && o.Op.Tpl >= 0 && o.Op.Tpl < len(tplNames) {
 		feat = append(feat, "tpl="+tplNames[o.Op.Tpl])
 	}
 	if err != nil {
@@ -344,7 +350,8 @@ func (s *Sim) reexecOne(ctx context.Context, name string, e *Entry, o *OpRecord,
 		return
 	}
 	same := postingsEqual(res.Postings, e.Tx.Postings)
-	balanceIndependent := o.Op.Kind == "script" && (o.Op.Tpl == tplWorld || o.Op.Tpl == tplOverdraftUnbounded || o.Op.Tpl == tplSetAccountMeta)
+	balanceIndependent := o.Op.Kind == "script" && (o.Op.Tpl == tplWorld || o.Op.Tpl == tplOverdraftUnbounded || o.Op.Tpl == tplSetAccountMeta ||
+		o.Op.Tpl == tplArith || o.Op.Tpl == tplPortionVar || o.Op.Tpl == tplMetaVar)
 	if o.Op.Kind == "postings" {
 		balanceIndependent = true // posting mode: the postings are the request
 	}
